@@ -54,6 +54,19 @@ Proof.
 Qed.
 Print Assumptions zero_pad_spec.
 
+(* the venom encoder's last-word offset (len+31) & ~31 is ceil32 len *)
+Theorem zero_pad_venom_offset : forall len, 0 <= len -> len + 31 < 2 ^ 256 ->
+  Z.land (len + 31) (2 ^ 256 - 32) = ceil32 len.
+Proof. exact venom_last_word_offset. Qed.
+
+(* wrapping in a 1-tuple (external return of a non-tuple, abi_encode default, Error(string)) *)
+Theorem external_return_wrap : forall t v,
+  enc (TTuple [t]) (VList [v]) = if g_is_dynamic t then word 32 ++ enc t v else enc t v.
+Proof. intros. rewrite g_is_dynamic_eq. apply enc_wrap1. Qed.
+Theorem revert_reason_layout : forall b data,
+  enc (TTuple [TString b]) (VList [VBytes data]) = word 32 ++ word (zlen data) ++ data ++ zeros (pad32 (zlen data)).
+Proof. exact reason_layout. Qed.
+
 (* non-vacuity: a nested dynamic type with a negative int, an empty array and a 33-byte string *)
 Definition T_ex := TTuple [TInt 8; TDArr (TString 33) 2; TSArr (TDArr (TUInt 256) 2) 2].
 Definition V_ex := VList [VInt (-1); VList [VBytes (repeat 97 33); VBytes []]; VList [VList []; VList [VInt 5]]].
